@@ -325,12 +325,27 @@ def base_databases(rng, quick):
         return db
     out.append(("extras3", mk_extras3))
     out.append(("comparams", lambda: hc.load_docs([hc.cpsubset_doc(), hc.cpsubset2_doc(), hc.cpspec_doc()])))
+    # inheritance across containers (the inheriting layer's document sorts first), and a container without any layer
+    out.append(("split", lambda: hc.load_docs([SPLIT_CHILD, SPLIT_PARENT, SPLIT_ADMIN, hc.cpsubset_doc(), hc.cpsubset2_doc(), hc.cpspec_doc()])))
     # two containers from one blueprint: the same local ids name different objects in the two documents
     out.append(("twins", lambda: hc.load_docs([TWIN.format(name="alpha", bits=8, sid=0x22),
                                               TWIN.format(name="beta", bits=24, sid=0x2e)])))
     return out
 
 
+_HD = '<?xml version="1.0" encoding="UTF-8"?><ODX MODEL-VERSION="2.2.0" xmlns:xsi="http://www.w3.org/2001/XMLSchema-instance">'
+SPLIT_PARENT = (_HD + '<DIAG-LAYER-CONTAINER ID="DLC.zparent"><SHORT-NAME>zparent</SHORT-NAME><BASE-VARIANTS>'
+                '<BASE-VARIANT ID="BVP"><SHORT-NAME>BVP</SHORT-NAME><COMPARAM-REFS>'
+                '<COMPARAM-REF ID-REF="CPSUB.CP_Baudrate" DOCREF="CPSUB" DOCTYPE="COMPARAM-SUBSET"><SIMPLE-VALUE>250000</SIMPLE-VALUE></COMPARAM-REF>'
+                '<COMPARAM-REF ID-REF="CPSUB.CP_CanFuncReqId" DOCREF="CPSUB" DOCTYPE="COMPARAM-SUBSET"><SIMPLE-VALUE>2015</SIMPLE-VALUE></COMPARAM-REF>'
+                '</COMPARAM-REFS></BASE-VARIANT></BASE-VARIANTS></DIAG-LAYER-CONTAINER></ODX>')
+SPLIT_CHILD = (_HD + '<DIAG-LAYER-CONTAINER ID="DLC.achild"><SHORT-NAME>achild</SHORT-NAME><ECU-VARIANTS>'
+               '<ECU-VARIANT ID="EVC"><SHORT-NAME>EVC</SHORT-NAME><COMPARAM-REFS>'
+               '<COMPARAM-REF ID-REF="CPSUB.CP_CanFuncReqId" DOCREF="CPSUB" DOCTYPE="COMPARAM-SUBSET"><SIMPLE-VALUE>2016</SIMPLE-VALUE></COMPARAM-REF>'
+               '</COMPARAM-REFS><PARENT-REFS><PARENT-REF ID-REF="BVP" DOCREF="zparent" DOCTYPE="CONTAINER" xsi:type="BASE-VARIANT-REF"/>'
+               '</PARENT-REFS></ECU-VARIANT></ECU-VARIANTS></DIAG-LAYER-CONTAINER></ODX>')
+SPLIT_ADMIN = (_HD + '<DIAG-LAYER-CONTAINER ID="DLC.madmin"><SHORT-NAME>madmin</SHORT-NAME><LONG-NAME>administrative data only</LONG-NAME>'
+               '<ADMIN-DATA><LANGUAGE>en</LANGUAGE></ADMIN-DATA></DIAG-LAYER-CONTAINER></ODX>')
 TWIN = ('<?xml version="1.0" encoding="UTF-8"?><ODX MODEL-VERSION="2.2.0" xmlns:xsi="http://www.w3.org/2001/XMLSchema-instance">'
  '<DIAG-LAYER-CONTAINER ID="DLC.{name}"><SHORT-NAME>{name}</SHORT-NAME><BASE-VARIANTS><BASE-VARIANT ID="BV"><SHORT-NAME>{name}_bv</SHORT-NAME>'
  '<DIAG-DATA-DICTIONARY-SPEC><DATA-OBJECT-PROPS>'
@@ -412,6 +427,10 @@ def behaviour(db):
     """encode / decode behaviour of every service whose request encodes without arguments"""
     out = []
     for dl in db.diag_layers:
+        # the communication parameters which apply to the layer (own and inherited)
+        cps = getattr(dl, "comparam_refs", None)
+        if cps is not None:
+            out.append((dl.short_name, "comparams", sorted((cp.spec_ref.ref_id, repr(cp.protocol_snref), repr(cp.value)) for cp in cps)))
         for svc in dl.services:
             r, e, _ = cc.guarded(lambda: bytes(svc.encode_request()), timeout=5)
             if e is not None:
